@@ -408,3 +408,46 @@ def rule_commit(ctx):
 
 
 RULES.append(("C13.j", "branch-commit: between the decision to perform an effect and the effect there is no way out", rule_commit))
+
+
+def rule_runnable_exists(ctx):
+    """The predicate every releasing path uses to decide whether a Runnable still owns the future:
+    runnable_exists(state) == (state & POLLING != 0) && (state & (WAKE_MASK | CLOSED) != 0).
+    Dropping the CLOSED term makes a handle released during the wind-down of a cancelled poll free the task under the Runnable."""
+    from ..masks import masked, mask_cmp, const_eval
+    P = ctx.prog
+    b = ctx.body(TASK + "util::runnable_exists")
+    if b is None:
+        return
+    c = consts(P)
+    if None in (c["POLLING"], c["CLOSED"], c["WAKE_MASK"]):
+        return ctx.missing("task state constants")
+    rets = [r for r in K.ret_assigns(b) if not r.is_term]
+    var = []
+    ok_const = True
+    for r in rets:
+        rv = r.node["r"]
+        if rv["r"] == "use" and rv["o"].get("k") == "const":
+            ok_const = ok_const and rv["o"].get("v") in (False, 0)
+            continue
+        var.append(r)
+    ok = len(var) == 1 and ok_const
+    sites = list(var)
+    if ok:
+        r = var[0]
+        rv = r.node["r"]
+        ok = rv["r"] == "bin" and rv.get("op") in ("Ne", "Gt")
+        if ok:
+            lo = b.origins(rv["a"], r) if "a" in rv else frozenset()
+            ro = b.origins(rv["b"], r) if "b" in rv else frozenset()
+            m = masked(next(iter(lo))) if len(lo) == 1 else None
+            zero = len(ro) == 1 and const_eval(next(iter(ro))) == 0
+            ok = m is not None and zero and m[0] == ("arg", 1) and m[1] == (c["WAKE_MASK"] | c["CLOSED"])
+            conds = [mask_cmp(x) for x in b.conditions(r)]
+            ok = ok and any(x is not None and x[0] == "!=" and x[1] == ("arg", 1) and x[2] == c["POLLING"] and x[3] == 0 for x in conds)
+    ctx.ob("runnable-exists-definition", ok,
+           "runnable_exists(state) is (state & POLLING != 0) && (state & (WAKE_MASK | CLOSED) != 0): a cancelled task that is still being "
+           "polled (CLOSED|POLLING, wake count already reset) is still owned by its Runnable", sites or [b.name])
+
+
+RULES.append(("C13.k", "the runnable_exists predicate covers the wind-down phase", rule_runnable_exists))
